@@ -1,7 +1,7 @@
 (* C02 — instantiation of the arithmetic record with Qc (canonical rationals, Leibniz equality); definitions only.
    The square root is supplied by the caller (the OCaml driver passes an exact rational square root that is
    defined on perfect squares; the theorems require exactness only on the pivots actually met). *)
-From Coq Require Import QArith Qcanon.
+From Coq Require Import QArith Qcanon Qcabs.
 From SharkV Require Import C02Model.
 
 Definition qc_eqb (x y : Qc) : bool := if Qc_eq_dec x y then true else false.
@@ -12,3 +12,5 @@ Definition qc_ops (sq : Qc -> Qc) : ops Qc :=
 Definition qc_make (num : Z) (den : positive) : Qc := Q2Qc (Qmake num den).
 Definition qc_num (x : Qc) : Z := Qnum (this x).
 Definition qc_den (x : Qc) : positive := Qden (this x).
+(* std::abs for the pivot search of getrf (C02BlkModel.v) *)
+Definition qc_abs (x : Qc) : Qc := Qcabs x.
